@@ -8,12 +8,12 @@
 //	      `{{ <k expression lexemes> }}`), spaced and unspaced, also behind a 4100-byte text prefix
 //	      (which selects the second tokenizer)
 //	mut   every distance-1 mutation (lexeme deleted / duplicated / swapped with its neighbour /
-//	      truncation; byte deleted / replaced by a delimiter byte) of a 90-template corpus that uses
+//	      truncation; byte deleted / replaced by a delimiter byte) of a 94-template corpus that uses
 //	      every tag and expression form; plus deep-nesting sources
 //	grid  every construct that takes operands (each filter with 0..3 arguments, each function, each
 //	      test, each operator, item/attribute access, for, in, include, ...) x every Go value shape
-//	      for the subject x every shape for the first argument x 8 shapes for the second
-//	bin   every byte string of length <= 2, every string of length <= 7 over six boundary bytes, and
+//	      for the subject x 25 (thorough: all 92) shapes for the first argument x 4 (8) for the second
+//	bin   every byte string of length <= 2, every string of length <= 6 (thorough 8) over six boundary bytes, and
 //	      for eight valid serialisations every prefix, every single-byte substitution and every
 //	      length prefix rewritten to seven boundary values, as compiled-template data
 //
@@ -237,7 +237,7 @@ var slowLog = os.Getenv("C05_SLOWLOG")
 func main() {
 	vlib.Main(vlib.Spec{
 		ID: "C05", Level: "exploration",
-		Rule: "bounded-exhaustive: (lex) all sequences of <=k lexemes - free, inside {% tag ... %}, inside {{ ... }} - spaced/unspaced, also behind a 4100-byte prefix (second tokenizer); (mut) all distance-1 lexeme and byte mutations and truncations of a 90-template corpus, deep nestings; (grid) every operand-taking construct x every Go value shape for subject and first argument x 8 shapes for the second; (bin) all byte strings <=2, all strings <=7 over 6 boundary bytes, all prefixes / single-byte substitutions / boundary length prefixes of 8 valid serialisations. Each case: fresh engine, parse, render, then a canary on the same engine; panics recovered and reported, fatal errors and hangs isolated by the worker protocol. Non-trivial = lex/mut: the source contains a tag opener (the tag parsers are reached); grid: the template parsed and was rendered with a subject that is not a plain untyped scalar; bin: the decoder got past the version byte or into the gob fallback with >= 2 bytes",
+		Rule: "bounded-exhaustive: (lex) all sequences of <=k lexemes - free, inside {% tag ... %}, inside {{ ... }} - spaced/unspaced, also behind a 4100-byte prefix (second tokenizer); (mut) all distance-1 lexeme and byte mutations and truncations of a 94-template corpus, deep nestings; (grid) each of 563 operand-taking constructs x each of 92 Go value shapes for the subject x 25 (thorough: 92) shapes for the first argument x 4 (thorough: 8) for the second; (bin) all byte strings <=2, all strings <=6 (thorough: 8) over 6 boundary bytes, all prefixes / single-byte substitutions / boundary length prefixes of 8 valid serialisations. Each case: fresh engine, parse, render, then a canary on the same engine; panics recovered and reported, fatal errors and hangs isolated by the worker protocol. Non-trivial = lex/mut: the source contains a tag opener (the tag parsers are reached); grid: the template parsed and was rendered with a subject that is not a plain untyped scalar; bin: the decoder got past the version byte or into the gob fallback with >= 2 bytes",
 		Assumptions: []string{
 			"'every byte string' is bounded as stated in Rule; 'hang' = a worker that prints no progress for 120 s (25 s when re-run alone), confirmed twice on the case alone",
 			"integers that drive the SIZE of a result (range bounds, `..` bounds, slice/cycle positions are fine) are kept small: range(0, 2^63-1) asks for 2^63 elements and is not distinguishable from a hang",
